@@ -14,6 +14,8 @@
                                     `flag |= bit 11` exactly on `mask_regularization` = the pixels of the
                                     low-confidence segments of C12's model (`inSegments`), `flagSpec` holds,
     `intervals_bit11_iff`           bit 11 after ⇔ bit 11 before ∨ the pixel lies in a segment,
+    `intervals_bit11_lowConfidence` … i.e. (threshold ≤ 1) its confidence flag is `false`: the sliding minimum of
+                                    the confidence from ambiguity is below the threshold (`IntervalRuns.inSegments_iff`),
     `intervals_other_bits`, `intervals_validity`   every other bit and the validity are unchanged,
     `intervals_border`              with `offset_row_col > 0` the border carries bit 0 only
     `regularization_frame`          a pixel outside every segment keeps both bounds (C12's fold writes inside
@@ -29,6 +31,7 @@
 import PandoraModel.Model.FilterIntervals
 import PandoraModel.Properties.C10
 import PandoraModel.Lemmas.C12Regul
+import PandoraModel.Lemmas.IntervalRuns
 
 namespace Pandora.C10C12
 open Pandora Pandora.Filter Pandora.Confidence Pandora.FilterIntervals
@@ -157,6 +160,29 @@ theorem intervals_bit11_iff (h : cfg.regularization = true) (r c : Nat)
   · simp only [if_true, Bool.or_true]
     rw [Nat.testBit_or, h11, Nat.testBit_two_pow]
     simp
+
+/-- the row of the ambiguity band the regularisation reads -/
+def ambRow (nx : Nat) (amb : Img) (r : Nat) : List Val := (List.range nx).map fun c => amb r c
+
+/-- **bit 11, declaratively** (`ambiguity_threshold ≤ 1`, which the schema enforces): after a regularising
+    step a pixel carries bit 11 iff it carried it before, or its confidence flag is `false` — the minimum of the
+    confidence-from-ambiguity over the `ambiguity_kernel_size` window around it (row padded with ones) is below
+    the threshold, the last column excepted (`Lemmas/IntervalRuns.lean`: the segments of C12's model are
+    exactly the runs of `false` flags) -/
+theorem intervals_bit11_lowConfidence (h : cfg.regularization = true) (hthr : cfg.thr ≤ 1) (r c : Nat) (hr : r < ny)
+    (hb : off = 0 ∨ FlagSteps.inBorder ny nx off r c = false) :
+    ((step s off cfg ny nx inf sup amb flags).flags r c).testBit 11 = true ↔
+      ((flags r c).testBit 11 = true ∨ (confidentFlags cfg.thr cfg.kernel (ambRow nx amb r))[c]? = some false) := by
+  rw [intervals_bit11_iff s off cfg ny nx inf sup amb flags h r c hb, Bool.or_eq_true,
+    IntervalRuns.inSegments_iff cfg.thr cfg.kernel (toGrid ny nx amb) hthr r c]
+  have hrow : (toGrid ny nx amb)[r]? = some (ambRow nx amb r) := by simp [toGrid, ambRow, hr]
+  constructor
+  · rintro (h1 | ⟨row, h2, h3⟩)
+    · exact Or.inl h1
+    · rw [hrow] at h2; cases h2; exact Or.inr h3
+  · rintro (h1 | h3)
+    · exact Or.inl h1
+    · exact Or.inr ⟨_, hrow, h3⟩
 
 /-- every other bit of the mask is unchanged -/
 theorem intervals_other_bits (h : cfg.regularization = true) (r c : Nat)
@@ -291,6 +317,14 @@ example :
     segs demoCfg 3 6 demoAmb = [((0, 1), (0, 2)), ((1, 3), (1, 4)), ((2, 0), (2, 0))] ∧
     Blocks.tabulate 3 6 (step (Generated.Blocks.median 1) 0 demoCfg 3 6 demoInf demoSup demoAmb demoFlags).flags =
       [[0, 2056, 2048, 0, 0, 0], [0, 0, 0, 2304, 2048, 0], [2048, 0, 0, 0, 0, 0]] := by
+  decide +kernel
+
+/-- the hypotheses of `intervals_bit11_lowConfidence` on the scene: threshold 1/2 ≤ 1; the confidence flags of
+    row 0 (kernel 1: the pixel's own confidence) are `false` exactly on the run of 1/4 -/
+example :
+    demoCfg.thr ≤ 1 ∧
+    confidentFlags demoCfg.thr demoCfg.kernel (ambRow 6 demoAmb 0) = [true, false, false, true, true, true] ∧
+    confidentFlags demoCfg.thr 3 (ambRow 6 demoAmb 0) = [false, false, false, false, true, true] := by
   decide +kernel
 
 /-- the hypotheses of `changed_implies_bit11` are satisfiable: at (0, 1) the lower bound moved from −2 to −4 -/
